@@ -224,6 +224,42 @@ func (g *Gen) Load(tags string, pkgPaths []string) (*program, error) {
 			p.fns[pk+"."+strings.Replace(strings.Replace(name, "(", "", 1), ")", "", 1)] = fn
 		}
 	}
+	// methods of generic types (and generic functions) are not enumerated by
+	// AllFunctions unless instantiated: register their generic bodies
+	for _, sp := range prog.AllPackages() {
+		if !strings.HasPrefix(sp.Pkg.Path(), repoModule) {
+			continue
+		}
+		sc := sp.Pkg.Scope()
+		for _, n := range sc.Names() {
+			var fobjs []*types.Func
+			switch o := sc.Lookup(n).(type) {
+			case *types.TypeName:
+				if nt, ok := o.Type().(*types.Named); ok && nt.TypeParams().Len() > 0 {
+					for k := 0; k < nt.NumMethods(); k++ {
+						fobjs = append(fobjs, nt.Method(k))
+					}
+				}
+			case *types.Func:
+				if sig, ok := o.Type().(*types.Signature); ok && sig.TypeParams().Len() > 0 {
+					fobjs = append(fobjs, o)
+				}
+			}
+			for _, fo := range fobjs {
+				fn := prog.FuncValue(fo)
+				if fn == nil || fn.Blocks == nil {
+					continue
+				}
+				pk, name := fnKey(fn)
+				if pk == "" {
+					continue
+				}
+				if _, ok := p.fns[pk+"."+name]; !ok {
+					p.fns[pk+"."+name] = fn
+				}
+			}
+		}
+	}
 	g.progs[key] = p
 	return p, nil
 }
